@@ -665,7 +665,7 @@ func checkExecEnvUsedAsBuilt(c *report.Ctx) {
 	w := newWire(c, nil, nil)
 	isExecEnv := func(v ssa.Value) bool {
 		for _, o := range w.Origins(v) {
-			if strings.HasPrefix(o, "call:L/rapidcore/env.Environment.AgentExecEnv#") || strings.HasPrefix(o, "call:L/rapidcore/env.Environment.RuntimeExecEnv#") || o == "call:L/rapid.doRuntimeBootstrap#1" || strings.HasPrefix(o, "call:L/rapidcore/bootstrap.Bootstrap.Env#") || strings.HasPrefix(o, "call:L/interop.Bootstrap.Env#") {
+			if strings.HasPrefix(o, "call:L/rapidcore/env.Environment.AgentExecEnv#") || strings.HasPrefix(o, "call:L/rapidcore/env.Environment.RuntimeExecEnv#") || strings.HasPrefix(o, "call:L/rapid.doRuntimeBootstrap#") || strings.HasPrefix(o, "call:L/rapidcore/bootstrap.Bootstrap.Env#") || strings.HasPrefix(o, "call:L/interop.Bootstrap.Env#") {
 				return true
 			}
 		}
@@ -715,10 +715,10 @@ func checkExecEnvUsedAsBuilt(c *report.Ctx) {
 					if !ok || tm.Key().String() != "string" || tm.Elem().String() != "string" {
 						continue
 					}
+					n++ // (every string map handed on in the package is looked at; only those that are exec environments can offend)
 					if !isExecEnv(a) {
 						continue
 					}
-					n++
 					if callee != nil && strings.HasPrefix(load.Abbrev(callee.String()), "L/") || callee != nil && strings.Contains(callee.String(), "go.amzn.com") {
 						if writesParam(callee, i) {
 							bad = append(bad, an.FuncName(f)+": handed to "+an.Callee(x)+", which writes entries of it")
@@ -731,7 +731,7 @@ func checkExecEnvUsedAsBuilt(c *report.Ctx) {
 			}
 		})
 	}
-	c.Check("R-NOEFFECT", "L/rapid/exec-environment-used-as-built", "package rapid starts processes with the environment maps exactly as the env package built them: it writes no entry and passes them to nothing that does", len(bad) == 0 && n >= 1, pos, n, "exec environment maps passed on: %d; modified: %v", n, uniq(bad))
+	c.Check("R-NOEFFECT", "L/rapid/exec-environment-used-as-built", "package rapid starts processes with the environment maps exactly as the env package built them: it writes no entry and passes them to nothing that does", len(bad) == 0 && n >= 1, pos, n, "string maps passed on in the package: %d; exec environments modified: %v", n, uniq(bad))
 }
 
 // checkRefusedResponseLeavesReplyUntouched (C14, C01): the oversized response is refused before anything was said on
@@ -1112,6 +1112,16 @@ func checkChunksBoundedByChunkSize(c *report.Ctx) {
 	}
 	n, ok := 0, true
 	pos := fpos(f)
+	facts := an.NewFacts(f)
+	ciT := "L/core/bandwidthlimiter.ChunkIterator"
+	isSum := func(v ssa.Value) bool { // offset + chunkSize
+		bo, k := an.Strip(v, true).(*ssa.BinOp)
+		return k && bo.Op == token.ADD && (loadOf(ciT, "offset")(bo.X) && loadOf(ciT, "chunkSize")(bo.Y) || loadOf(ciT, "offset")(bo.Y) && loadOf(ciT, "chunkSize")(bo.X))
+	}
+	isLen := func(v ssa.Value) bool { // len(buf)
+		a, k := an.LenArg(an.Strip(v, true))
+		return k && loadOf(ciT, "buf")(a)
+	}
 	an.AllInstrs(f, func(in ssa.Instruction) {
 		sl, isSl := in.(*ssa.Slice)
 		if !isSl {
@@ -1120,8 +1130,51 @@ func checkChunksBoundedByChunkSize(c *report.Ctx) {
 		n++
 		good := false
 		if sl.High != nil {
-			if cl, _ := an.CallOf(sl.High); cl != nil && (strings.HasSuffix(an.Callee(cl), ".min") || an.Callee(cl) == "builtin.min") {
+			if cl, _ := an.CallOf(sl.High); cl != nil && len(cl.Call.Args) == 2 && (isSum(cl.Call.Args[0]) && isLen(cl.Call.Args[1]) || isSum(cl.Call.Args[1]) && isLen(cl.Call.Args[0])) {
+				if bi, k := cl.Call.Value.(*ssa.Builtin); k && bi.Name() == "min" {
+					good = true
+				} else if g := cl.Call.StaticCallee(); g != nil && isMinFunc(g) {
+					good = true
+				}
+			} else {
+				// the minimum written out: the sum where it is known not to exceed len(buf), len(buf) where the sum is
+				// known not to be below it
 				good = true
+				cases := facts.JoinCases(sl.High, sl.Block())
+				seenSum := false
+				for _, jc := range cases {
+					rel := func(wantSumSmaller bool) bool {
+						for _, ft := range jc.Facts {
+							r, k := an.AsRel(ft)
+							if !k {
+								continue
+							}
+							for _, rr := range []an.Rel{r, r.Flip()} {
+								if isSum(rr.X) && isLen(rr.Y) {
+									switch rr.Op {
+									case token.LSS, token.LEQ:
+										if wantSumSmaller {
+											return true
+										}
+									case token.GTR, token.GEQ:
+										if !wantSumSmaller {
+											return true
+										}
+									}
+								}
+							}
+						}
+						return false
+					}
+					switch {
+					case isSum(jc.Val) && rel(true):
+						seenSum = true
+					case isLen(jc.Val) && rel(false):
+					default:
+						good = false
+					}
+				}
+				good = good && seenSum && len(cases) >= 2
 			}
 		}
 		if !good {
@@ -1409,28 +1462,21 @@ func checkErrorPayloadSentAsGiven(c *report.Ctx) {
 	if f == nil {
 		return
 	}
-	n, ok := 0, true
+	n, ok := len(an.CallsTo(f, srvT+".sendResponseUnsafe")), true
 	pos := fpos(f)
-	for _, call := range an.CallsTo(f, srvT+".sendResponseUnsafe") {
-		args := call.Common().Args
-		if len(args) < 4 {
-			continue
-		}
-		n++
-		good := false
-		if cl, _ := an.CallOf(args[3]); cl != nil && an.Callee(cl) == "bytes.NewReader" {
-			good = an.IsFieldLoad(an.Strip(cl.Call.Args[0], true), "L/interop.ErrorInvokeResponse", "Payload")
-		} else if mi, isMI := args[3].(*ssa.MakeInterface); isMI {
-			if cl, _ := an.CallOf(mi.X); cl != nil && an.Callee(cl) == "bytes.NewReader" {
-				good = an.IsFieldLoad(an.Strip(cl.Call.Args[0], true), "L/interop.ErrorInvokeResponse", "Payload")
-			}
-		}
-		if !good {
+	// the one reader built in this function is bytes.NewReader(resp.Payload); however it travels to the sink (an
+	// argument, a field of a response record), nothing else is made into a body here
+	readers := an.CallsTo(f, "bytes.NewReader", "bytes.NewBuffer", "bytes.NewBufferString", "strings.NewReader", "io.MultiReader", "io.LimitReader")
+	if len(readers) != 1 {
+		ok = false
+	}
+	for _, call := range readers {
+		if an.Callee(call) != "bytes.NewReader" || !an.IsFieldLoad(an.Strip(call.Common().Args[0], true), "L/interop.ErrorInvokeResponse", "Payload") {
 			ok = false
 			pos = an.InstrPos(call)
 		}
 	}
-	c.Check("R-WIRE", an.FuncName(f)+"/payload-as-given", "the error response's body handed to the reply sink is resp.Payload itself", ok && n == 1, pos, n, "sink calls: %d; body = bytes.NewReader(resp.Payload): %v", n, ok)
+	c.Check("R-WIRE", an.FuncName(f)+"/payload-as-given", "the error response's body handed to the reply sink is resp.Payload itself", ok && n == 1, pos, n, "sink calls: %d; the only reader made is bytes.NewReader(resp.Payload): %v", n, ok)
 }
 
 // rules that reported a round-10 seed through a sibling property only
